@@ -1595,7 +1595,24 @@ func dispatchScope(fn *ssa.Function) []*ssa.Function {
 		for _, call := range callsIn(f) {
 			cc := call.Common()
 			if cc.IsInvoke() {
+				// a strategy object: an unexported interface of this package, implemented by small types of
+				// this package (picked by a selector function from the constraint's configuration)
+				if nm, isNamed := types.Unalias(cc.Value.Type()).(*types.Named); isNamed && nm.Obj().Pkg() == fn.Pkg.Pkg && !nm.Obj().Exported() && curProg != nil {
+					for _, t := range curProg.CallGraph().CalleesOf(cc) {
+						if t.Pkg == fn.Pkg {
+							add(t, depth)
+						}
+					}
+				}
 				continue
+			}
+			// a handler kept in a function-typed field of the constraint (chosen once, by its constructor)
+			if cc.StaticCallee() == nil {
+				if fld, _ := loadedField(cc.Value); fld != nil && !fld.Exported() {
+					for _, t := range fieldFuncTargets(fld) {
+						add(t, depth)
+					}
+				}
 			}
 			if sc := cc.StaticCallee(); sc != nil {
 				// a helper handed this function's own parameters (the constraint, the context)
@@ -1967,6 +1984,12 @@ func unconditionalDelete(c *Ctx, cg *CG, fn *ssa.Function, prims []*types.Func, 
 			}
 			if f.Kind == "true" && f.Pol {
 				if k, ok := f.V.(*ssa.Call); ok && invokeNamed(k, "HasError") {
+					return true
+				}
+			}
+			// the same test written on the holder's error cell itself (bucket.Err != nil)
+			if f.Kind == "nonnil" && f.Pol {
+				if ff, _ := loadedField(f.V); ff != nil && ff.Name() == "Err" && isErrorType(ff.Type()) {
 					return true
 				}
 			}
